@@ -163,7 +163,8 @@ def sk_pair(U, v, L):
 
 
 def sk_floats(U, v, L):
-    a = U.Floats(f=v.float(), g=v.float(), n=v.int(), flag=v.bool(), e=[U.Shade.RED, U.Shade.DARK][v.sel(2)])
+    # (path values: one relative, one absolute - Path parameters are outside the signature)
+    a = U.Floats(f=v.float(), g=v.float(), n=v.int(), flag=v.bool(), e=[U.Shade.RED, U.Shade.DARK][v.sel(2)], where=Path("data/corpus"), wheres={"a": Path("rel/x.bin"), "b": Path("/abs/y")})
     return G(a, [a])
 
 
